@@ -50,7 +50,7 @@ MC_NOTE = ("Bounded to the stated alphabets, sizes and menus; every nondetermini
 
 CHECKS += [
     {"id": "C05", "engine": "E2-choice-explorer", "level": "model_checking", "design_ref": "DESIGN.md §3 C05",
-     "technique": "exhaustive exploration of prune/merge trajectories of the real CTC prefix search over all small score matrices, lens vectors and widths, against two reference models (exact alignment enumeration; dict-based prefix-beam recursion)",
+     "technique": "exhaustive exploration of prune/merge trajectories of the real CTC prefix search over all small score matrices, lens vectors and widths, against two reference models (exact alignment enumeration; dict-based prefix-beam recursion); a regime of exact zeros and ones (every sequence of certain frames x a lexicon LM with hard zeros)",
      "text": "Every (T<=3/4, V<=2/3, N<=3, all lens vectors, widths 1..far beyond the reachable prefixes, seed-valued and structured score matrices incl. exact zero probabilities, plain and valid-mixture fusion with a stateful table LM) search is run on the real module and on ctc_prefix_search_advance step by step; masses are compared with the exact sum over all alignments when nothing was pruned and with an independent prefix-beam recursion of the same width otherwise (near-ties downgraded to upper bounds); structural invariants (no NaN, distinct blank-free prefixes, ordering, padding slots, batch == solo) on every run. States = distinct (frame, beam contents), transitions = frames advanced.",
      "note": MC_NOTE},
     {"id": "C06", "engine": "E1-small-scope", "level": "exploration", "design_ref": "DESIGN.md §3 C06",
@@ -62,7 +62,7 @@ CHECKS += [
      "text": "sequence_log_probs on every hyp over {-1..V}^T (padded and packed, every dim spelling, eos settings) against a Python loop; the whole walk tree of the real RandomWalk over a history-coded table LM: every leaf ends at first eos/limit, reported log-prob == chain rule == distribution log_prob == sequence_log_probs of the model outputs, leaf probabilities sum to 1; distribution wrapper sample/log_prob/enumerate_support/support.check with default validation; greedy CTC on every frame-label sequence. States = walk-tree nodes, transitions = walk steps, traces = leaves cross-validated three ways.",
      "note": MC_NOTE},
     {"id": "C08", "engine": "E2-choice-explorer", "level": "model_checking", "design_ref": "DESIGN.md §3 C08",
-     "technique": "exhaustive enumeration of scripted uniform draws (torch.rand owned by the harness, menu includes 0 and 1-2^-24) per draw group x limit menus, drawn parameters and applied output checked against a reference model",
+     "technique": "exhaustive enumeration of scripted uniform draws (torch.rand owned by the harness, menu includes 0 and 1-2^-24) per draw group x limit menus, drawn parameters and applied output checked against a reference model; lengths in every admitted dtype, infinite feature cells, valid lengths up to 17000",
      "text": "For every (T,F), length, limit combination and every menu answer to each uniform draw (groups enumerated alone - they share no draws or limits, verified by a joint pass that must reproduce the alone results bit for bit): widths/counts within both caps, masks inside the valid region, warp centre/shift inside the window; applying: masked bands exactly zero, all else bit-identical without warp, shape preserved, eval identity, linear warp monotone and anchored within half a frame, all orders finite and inside the valid frames' value band (padding holds a sentinel).",
      "note": MC_NOTE},
     {"id": "C09", "engine": "E1-small-scope", "level": "exploration", "design_ref": "DESIGN.md §3 C09",
@@ -74,11 +74,11 @@ CHECKS += [
      "text": "trn: every alternates tree up to size 3/4 and depth 3 over 1-3 utterances; ctm: all orderings of <=4 segments over <=2 utterances/channels with and without mapping; TextGrid: interval/point tiers, precisions, fill token, times >= 10 s; path vs open file byte-identical under every option; multi-worker trn reading under every completion order of the virtual pool and on the real pool; transcript<->token tensor within one frame shift.",
      "note": E1_NOTE + " Known finding F8b (write_textgrid drops point_tier on the path branch) is printed as KNOWN-FINDING."},
     {"id": "C12", "engine": "E3-statespace", "level": "model_checking", "design_ref": "DESIGN.md §3 C12",
-     "technique": "explicit-state breadth-first search over real data directories on tmpfs: transitions are validate(strict) / validate(fix=k) calls, states are canonical directory contents, every state compared with a reference model written from the documented conditions",
+     "technique": "explicit-state breadth-first search over real data directories on tmpfs: transitions are validate(strict) / validate(fix=k) calls, states are canonical directory contents, every state compared with a reference model written from the documented conditions; the order in which the OS lists the directories is explored as an environment answer (every permutation of <= 3 entries)",
      "text": "From every single-utterance directory of the defect menu (and reduced two-utterance products) the real validate_spect_data_set / info command is applied to depth 3; in every state: strict validation raises iff the spec says invalid; a fix either raises leaving each file unchanged-or-repaired or succeeds with exactly the spec's repair; a successful fix is followed by a passing strict validation and is idempotent; the info report equals a recount. sos/eos round trip through __getitem__/write_hyp for every token list incl. empty.",
      "note": MC_NOTE},
     {"id": "C17", "engine": "E2-choice-explorer", "level": "model_checking", "design_ref": "DESIGN.md §3 C17",
-     "technique": "exhaustive exploration of worker-pool completion orders (virtual in-process pool, every order of imap_unordered chunks) x small complete corpora x flag grids on the real command entry points, against reference converters; real spawn pool / DataLoader workers replayed for conformance (thorough)",
+     "technique": "exhaustive exploration of worker-pool completion orders (virtual in-process pool, every order of imap_unordered chunks) x small complete corpora x flag grids on the real command entry points, against reference converters; real spawn pool / DataLoader workers replayed for conformance (thorough); directory listing order explored as a further environment answer (every permutation of <= 3 entries)",
      "text": "Round trips trn/ctm/TextGrid <-> token dir and ali <-> token dir for every prefix/suffix; error-rate command totals vs the C02 oracle for every batch size / replace / ignore / per-utt setting; subsetting and statistics commands vs recounts; identical files and figures for worker counts {0,2} under every completion order. States = (command, corpus, schedule) executions.",
      "note": MC_NOTE},
     {"id": "C18", "engine": "E1-small-scope", "level": "exploration", "design_ref": "DESIGN.md §3 C18",
@@ -115,7 +115,7 @@ CHECKS += [
      "text": "For N<=12/24, world<=5/8, every rank, the four uneven modes, sequential and random samplers (seeds 0..3/7): orders after consuming k epochs equal a fresh sampler at init_epoch=k, len == number yielded, per-rank lists are disjoint and cover exactly the documented index set, strict mode raises iff indivisible, ignore gives every rank the full epoch; every sequence of {iterate, peek current, peek next, len, epoch := 0, epoch := 2} up to depth 3/4 leaves the order a function of (seed, epoch) alone. The simulated group is validated against a real 2(3)-process gloo group (traces). States = (configuration, epoch, history) reached, transitions = operations.",
      "note": MC_NOTE + " torch.distributed is simulated at the four query functions the samplers use."},
     {"id": "C14", "engine": "E1-small-scope", "level": "exploration", "design_ref": "DESIGN.md §3 C14",
-     "technique": "bounded exhaustive enumeration of bucket assignments x size maps x sampler orders for the bucket sampler, and of length tuples x loader flag grids on real tmpfs directories, against reference length classes and lossless-collation oracles",
+     "technique": "bounded exhaustive enumeration of bucket assignments x size maps x sampler orders for the bucket sampler, and of length tuples x loader flag grids on real tmpfs directories, against reference length classes and lossless-collation oracles; directory listing order explored as an environment answer (every permutation of <= 3 entries)",
      "text": "BucketBatchSampler: every assignment of n<=6 indices to <=3 buckets, every size map, every permutation order, both drop settings - single-bucket batches in sampler order, right sizes, only trailing short batches, exact cover. Loaders: every length tuple over {1,2,3} for n<=5, batch sizes, bucket counts, dynamic sizing, drop_last, shuffle, sort_batch, batch_first, suppress flags: len == batches yielded for epochs 0..2, identical batches for identical (seed, epoch), bucket purity against reference length classes, lossless collation with correct pad values and attached ids; context windows vs an edge-replicating reference; thorough: len under a simulated process group.",
      "note": E1_NOTE},
 ]
